@@ -449,3 +449,25 @@ def run(ctx):
     from rules.c20 import trial_properties_return_copies
     trial_properties_return_copies(ctx, "R10.9")
 
+    # ------------------------------------------------------------ R10.10 grid membership is tested with a value-independent tolerance
+    ctx.rule("R10.10", "FloatDistribution._contains accepts a value as a grid point only if (value - low) / step is within a fixed, value-independent distance "
+             "(< 0.5) of an integer: a tolerance that grows with the quotient accepts every value of a fine grid over a large range, and relative samplers' "
+             "off-grid values then pass Trial._is_relative_param")
+    cf = p.func("optuna.distributions.FloatDistribution._contains")
+    cdefs = single_defs(cf.node)
+    n_tol = 0
+    for x in own_nodes(cf.node):
+        if isinstance(x, ast.Compare) and len(x.ops) == 1 and isinstance(x.ops[0], (ast.Lt, ast.LtE, ast.Gt, ast.GtE)):
+            sides = [x.left, x.comparators[0]]
+            dist = [e for e in sides if isinstance(e, ast.Call) and dotted(e.func) in ("abs", "math.fabs", "np.abs") and any(isinstance(y, ast.Call) and dotted(y.func) in ("round", "np.round", "np.rint") for y in ast.walk(e))]
+            if len(dist) != 1:
+                continue
+            tol = resolve([e for e in sides if e is not dist[0]][0], cdefs, depth=3)
+            n_tol += 1
+            ok = isinstance(tol, ast.Constant) and isinstance(tol.value, (int, float)) and 0 < tol.value < 0.5
+            ctx.check(ok, "R10.10", cf.short, "grid-tolerance-is-a-small-constant",
+                      message=f"FloatDistribution._contains compares the distance to the nearest grid index with `{norm(tol)[:50]}`: not a constant below 0.5, so for large "
+                              f"(value - low) / step every value between the bounds counts as a grid point (suggest_float('x', 0, 1e6, step=0.001) accepts 155465.31789)",
+                      how="abs(k - round(k)) < <constant>", where=where(cf, x))
+    ctx.floor("R10.10", "grid_distance_tests", n_tol, 1)
+
